@@ -307,7 +307,7 @@ def check(pid, tier, seed):
                 ops = [" ".join(step_line(g, ei).split()[1:]) for ei in path]
                 k = int(prob.split()[1]) if prob.startswith("step ") and prob.split()[1].lstrip("-").isdigit() else len(ops) - 1
                 sig = "ringbuffer[%s,%s] %s" % (ty, "ow" if nm.endswith("TRUE") else "now", prob.split(":")[0] if pid == "C04" else " ".join(prob.split()[2:8]))
-                verdict.violation(sig, prob, {"component": "ringbuffer", "type": ty, "overwrite": nm.endswith("TRUE"),
+                verdict.violation(sig, prob, {"component": "ringbuffer", "xid": xid, "type": ty, "overwrite": nm.endswith("TRUE"),
                                               "initial": {"cap": g.states[init]["cap"]["A"], "contents": list(g.states[init]["buf"]["A"])},
                                               "history": ops[:k + 1]})
             if len(samples) < 2 and len(path) > 4:
@@ -335,13 +335,13 @@ def check(pid, tier, seed):
                 nx = info["next"] or {}
                 sig = "ringbuffer[%s,%s] random history rejected at %s" % (ycfg[x]["ty"], "ow" if owv else "now", nx.get("e"))
                 verdict.violation(sig, {"matched": info["matched"], "next": nx},
-                                  {"component": "ringbuffer", "header": ycfg[x]["header"], "history": ycfg[x]["steps"][:info["matched"] + 1]})
+                                  {"component": "ringbuffer", "xid": x, "header": ycfg[x]["header"], "history": ycfg[x]["steps"][:info["matched"] + 1]})
         for x, c in ycfg.items():
             recs = yres.get(x, [])
             crash = next((r for r in recs if r.get("e") == "Crash"), None)
             if crash and "Sanitizer" not in crash.get("stderr", ""):
                 verdict.violation("ringbuffer[%s] random history ended by a signal" % c["ty"], crash.get("stderr", "")[:300],
-                                  {"component": "ringbuffer", "header": c["header"], "history": c["steps"]})
+                                  {"component": "ringbuffer", "xid": x, "header": c["header"], "history": c["steps"]})
     else:
         for x, c in ycfg.items():
             recs = yres.get(x, [])
@@ -375,7 +375,7 @@ def check(pid, tier, seed):
                     prob = "LeakSanitizer: memory allocated by the container was never freed"
             if prob:
                 verdict.violation("ringbuffer[%s] %s" % (c["ty"], " ".join(prob.split()[2:8])), prob,
-                                  {"component": "ringbuffer", "header": c["header"], "history": c["steps"][:max(1, nobs)]})
+                                  {"component": "ringbuffer", "xid": x, "header": c["header"], "history": c["steps"][:max(1, nobs)]})
     for x in list(ycfg)[:1]:
         samples.append({"source": "random", "header": ycfg[x]["header"], "history": ycfg[x]["steps"][:25]})
     nexec += len(ycfg)
@@ -394,3 +394,14 @@ def check(pid, tier, seed):
     rc = verdict.finish()
     common.write_evidence(pid, tier, seed, "model_checking", cov, ASSUMPTIONS, time.time() - t0, len(verdict.violations))
     return rc
+
+
+def all_harnesses():
+    a, _ = harness(True)
+    b, _ = harness(False)
+    return {a.name: a, b.name: b}
+
+
+def replay(pid, path):
+    import sys
+    return common.replay(pid, path, sys.modules[__name__])
